@@ -185,7 +185,34 @@ func prefixes(dir string) (evals, files int, bad *violation) {
 		for _, m := range full.Members {
 			boundary[m.End] = true
 		}
-		// all prefix lengths, spread over the cores
+		// prefix lengths: all of them for a small file; for a large one every length in the first 16 KiB, every
+		// member boundary and its neighbours, and every multiple of 4096 (the writer's buffer size)
+		var lengths []int64
+		if len(b) <= 64<<10 {
+			for n := int64(0); n <= int64(len(b)); n++ {
+				lengths = append(lengths, n)
+			}
+		} else {
+			set := map[int64]bool{}
+			for n := int64(0); n <= 16<<10; n++ {
+				set[n] = true
+			}
+			for _, m := range full.Members {
+				for _, d := range []int64{-1, 0, 1} {
+					set[m.End+d] = true
+				}
+			}
+			for n := int64(0); n <= int64(len(b)); n += 4096 {
+				set[n] = true
+			}
+			set[int64(len(b))] = true
+			for n := range set {
+				if n >= 0 && n <= int64(len(b)) {
+					lengths = append(lengths, n)
+				}
+			}
+			sort.Slice(lengths, func(i, j int) bool { return lengths[i] < lengths[j] })
+		}
 		var mu sync.Mutex
 		var wg sync.WaitGroup
 		workers := runtime.NumCPU()
@@ -193,7 +220,8 @@ func prefixes(dir string) (evals, files int, bad *violation) {
 			wg.Add(1)
 			go func(w int) {
 				defer wg.Done()
-				for n := int64(w); n <= int64(len(b)); n += int64(workers) {
+				for i := w; i < len(lengths); i += workers {
+					n := lengths[i]
 					want, good := 0, int64(0)
 					for _, m := range full.Members {
 						if m.End <= n {
